@@ -468,6 +468,7 @@ def rule_exponents_gt(ctx, cfg, prog, which=('final', 'cyclo', 'gtexp', 'generic
                    sample=dict(config=cfg, routine='map_to_cyclotomic', expected='(q^6-1)(q^2+1)'))
         if 'gtexp' in which:
             f = the_fn(prog, NS + 'Fq12::exponentiate_gt', pred=lambda g: 'PowersOfX' in g['params'][1]['t']['s'])
+            distinct_ok = False
             for alias in (False, True):
                 M, lvs = _exp_run(prog, f, {F12}, args=[('g', 'g'), ('obj', 'scalar')])
                 out = lvs[0] if alias else (M.new_obj(), ())
@@ -479,6 +480,18 @@ def rule_exponents_gt(ctx, cfg, prog, which=('final', 'cyclo', 'gtexp', 'generic
                 except expdom.NotEquivalent as ex:
                     bad.append(str(ex))
                     E = expdom.Lin(0)
+                except gvn.Unsupported as ex:
+                    if alias and distinct_ok and 'non-linear dependence on scalar bits' in str(ex):
+                        # the same routine is linear in the digit bits with a separate result: aliasing makes the accumulator feed
+                        # back into what it is multiplied by (the base is overwritten while it is still in use)
+                        bad.append('with the result aliasing the base the exponent stops being linear in the digit bits (%s): the base is '
+                                   'overwritten while it is still in use' % ex)
+                        E = expdom.Lin(0)
+                        n += 1
+                        ctx.ob(rule, False, 'exp|exponentiate_gt|out==a', loc_str(f),
+                               'Fq12::exponentiate_gt(a, c) is not a^(c0 + c1|x| + c2|x|^2 + c3|x|^3) for a of order r: %s' % '; '.join(bad[:3]), cfg=cfg)
+                        continue
+                    raise
                 seen = set()
                 for k, v in E.t.items():
                     # k = 'bit:scalar.c.[j]#i*g'
@@ -496,6 +509,8 @@ def rule_exponents_gt(ctx, cfg, prog, which=('final', 'cyclo', 'gtexp', 'generic
                 if missing:
                     bad.append('bits never used: %s...' % missing[:3])
                 n += 1
+                if not alias and not bad:
+                    distinct_ok = True
                 ctx.ob(rule, not bad, 'exp|exponentiate_gt|%s' % ('out==a' if alias else 'distinct'), loc_str(f),
                        'Fq12::exponentiate_gt(a, c) is not a^(c0 + c1|x| + c2|x|^2 + c3|x|^3) for a of order r: %s' % '; '.join(bad[:3]), cfg=cfg,
                        sample=dict(config=cfg, routine='exponentiate_gt', bit_weights_checked=len(seen), aliased=alias,
